@@ -59,4 +59,14 @@ def run(chk):
         chk.hist("address mask family")
     ma = run_model(drv, afam); da = run_daemons(impl, afam)
     analyse(chk, drv, impl, afam, ma, da, project=classes, judge=judge, what="class rules (address masks): ", nontrivial=nontriv)
+    # oracle from the property text on one fixed history (D30): rule 10-viad needs an OK from d.svc, which never answered (it was never
+    # even asked) - client 5 must get the class of the next rule
+    sh = slot_reuse_history(); dh = run_daemons(impl, [sh])[0]
+    chk.cov["evaluations"] += 1; chk.hist("slot reuse after two reloads")
+    got = [l for st in dh.steps for l in st[0] if l.startswith(("D 5 ", "R 5 "))]
+    if dh.rc != 0 or not got or got[0].split(" ")[-1] != "rest":
+        chk.violation("client 5 is accepted as %r: rule '10-viad' (xreply_ok d.svc) decided although d.svc never said OK about it - the client carries the 'answered OK' bit of a.svc, whose released slot d.svc took over; expected class 'rest'" % (got[0] if got else None),
+                      replay_text(sh, dh, None), "stale-slot:ok-bit-of-released-slot")
+    else:
+        chk.cov["traces_validated_against_impl"] += 1
     chk.cov["rule"] = "rule tables of 1-6 rules (names in mixed case, class or none, account / address / username / hostname / xreply_ok criteria subsets, globs with * and ?, CIDR and wildcard masks, trust_username) x client attribute combinations; projection = class field of D/R lines and U lines; distinct non-trivial = distinct traces in which some client received a class"
